@@ -30,15 +30,18 @@ class IG:
 
     def profile_table(self):
         T = {}
+        created = [False]
 
         def get(key):
             if key not in T:
                 T[key] = frozenset()
+                created[0] = True       # a key demanded for the first time has to be iterated as well
             return T[key]
         get((None, frozenset()))
         changed = True
-        while changed:
+        while changed or created[0]:
             changed = False
+            created[0] = False
             for key in list(T):
                 g, X = key
                 Y = T[key]
